@@ -1,5 +1,6 @@
 import Ekit.Props.C14
 import Ekit.Props.C14R
+import Driver.Ev.SyncXSoundC14
 open Ekit.LimitPool Ekit.SegmentLock
 #print axioms c14_limitPool_bookkeeping
 #print axioms c14_limitPool_outstanding_le_max
@@ -35,3 +36,19 @@ open Ekit.LimitPool Ekit.SegmentLock
 #print axioms c14_segment_try_fails_equal_key
 #print axioms c14_segment_size_one
 #print axioms c14_segment_lock_unlock_roundtrip
+-- soundness of the synchronisation-event replayers of `limit` / `seg` (Driver/Ev/SyncXSound.lean): what the driver accepts of a
+-- real execution IS a run of the model, so the final state (and the state after every accepted line) satisfies the C14 invariants
+#print axioms Driver.Ev.Limit.limit_replay1_sound
+#print axioms Driver.Ev.Limit.limit_replay_sound
+#print axioms Driver.Ev.Limit.limit_replay_reachable
+#print axioms Driver.Ev.Limit.c14_limit_evtrace_invariants
+#print axioms Driver.Ev.Limit.c14_limit_evtrace_invariants_at_every_line
+#print axioms Driver.Ev.Limit.c14_limit_evtrace_conserved_partial
+#print axioms Driver.Ev.Seg.tryFalse_spec
+#print axioms Driver.Ev.Seg.seg_replay1_sound
+#print axioms Driver.Ev.Seg.seg_replay_sound
+#print axioms Driver.Ev.Seg.seg_replay_reachable
+#print axioms Driver.Ev.Seg.c14_seg_evtrace_lock_excludes
+#print axioms Driver.Ev.Seg.c14_seg_evtrace_lock_excludes_at_every_line
+#print axioms Driver.Ev.Seg.c14_seg_evtrace_try_fails_while_locked
+#print axioms Driver.Ev.Seg.c14_seg_evtrace_tryFalse_explained
